@@ -238,7 +238,9 @@ class SqliteStorage(AbstractStorage):
     def insert_one(self, bucket_id: str, event: Event) -> Event:
         c = self.conn.cursor()
         starttime = event.timestamp.timestamp() * 1000000
-        endtime = starttime + (event.duration.total_seconds() * 1000000)
+        # The end is encoded like the start, from the exact end instant: adding a separately rounded
+        # duration to the rounded start can be off by a microsecond (events spanning 2**51 us after the epoch)
+        endtime = (event.timestamp + event.duration).timestamp() * 1000000
         datastr = json.dumps(event.data)
         c.execute(
             "INSERT INTO events(bucketrow, starttime, endtime, datastr) "
@@ -265,7 +267,7 @@ class SqliteStorage(AbstractStorage):
         event_rows = []
         for event in events_insert:
             starttime = event.timestamp.timestamp() * 1000000
-            endtime = starttime + (event.duration.total_seconds() * 1000000)
+            endtime = (event.timestamp + event.duration).timestamp() * 1000000
             datastr = json.dumps(event.data)
             event_rows.append((bucket_id, starttime, endtime, datastr))
         query = (
@@ -277,7 +279,7 @@ class SqliteStorage(AbstractStorage):
 
     def replace_last(self, bucket_id, event):
         starttime = event.timestamp.timestamp() * 1000000
-        endtime = starttime + (event.duration.total_seconds() * 1000000)
+        endtime = (event.timestamp + event.duration).timestamp() * 1000000
         datastr = json.dumps(event.data)
         query = """UPDATE events
                    SET starttime = ?, endtime = ?, datastr = ?
@@ -301,7 +303,7 @@ class SqliteStorage(AbstractStorage):
 
     def replace(self, bucket_id, event_id, event) -> bool:
         starttime = event.timestamp.timestamp() * 1000000
-        endtime = starttime + (event.duration.total_seconds() * 1000000)
+        endtime = (event.timestamp + event.duration).timestamp() * 1000000
         datastr = json.dumps(event.data)
         query = """UPDATE events
                      SET bucketrow = (SELECT rowid FROM buckets WHERE id = ?),
